@@ -17,7 +17,7 @@ TARGETS = ['C10/Props.vo', 'C10/Corr.vo']
 MODEL_TARGETS = ['C10/Corr.vo']
 PROPS_FILE = 'C10/Props.v'
 PROPS_MODULE = 'QV.C10.Props'
-CORR_IMPORTS = ['QV.C10.Model', 'QV.C10.Corr']
+CORR_IMPORTS = ['QV.C10.Model', 'QV.C10.Hist', 'QV.C10.Corr']
 CHECK_CORR = 'check_corr'
 CHECK_SPEC = 'check_spec'
 SHARD = 40
@@ -265,6 +265,21 @@ def introspect(obj, oids):
     return d
 
 
+def introspect_view(obj, oids):
+    """what the storage sees of obj NOW: an AbstractPulseTemplate linked with serialize_linked=True serializes as its
+    target (the target's data incl. the target's identifier) but keeps its own Python identity and storage key"""
+    if _tag(obj) == 'Abstract' and obj._linked_target is not None and obj.serialize_linked:
+        oid = oids.setdefault(id(obj), len(oids) + 1)
+        d = dict(introspect_view(obj._linked_target, oids))
+        d['oid'] = oid
+        return d
+    return introspect(obj, oids)
+
+
+def _strip_fp(x):
+    return json.loads(json.dumps(x, sort_keys=True, default=str))
+
+
 def _children(obj):
     tag = _tag(obj)
     if tag in ('Sequence', 'AtomicMulti'):
@@ -352,8 +367,8 @@ def _plain(x):
 # ---------------------------------------------------------------------------------------------------------------------
 # behaviour of original vs loaded
 PROBES = [
-    {'a': 1, 'b': 2, 'c': 3, 'd': 4, 'n': 2, 'v': 0.5, 'w': -1.5, 'x': 0.25, 'y': 2.0, 'z': 1, 'i': 1, 'k': 3, 'u': 8},
-    {'a': 2, 'b': 4, 'c': 6, 'd': 8, 'n': 3, 'v': 1.0, 'w': -0.25, 'x': 0.75, 'y': -1.0, 'z': 2, 'i': 0, 'k': 1, 'u': 4},
+    {'a': 1, 'b': 2, 'c': 3, 'd': 4, 'n': 2, 'v': 0.5, 'w': -1.5, 'x': 0.25, 'y': 2.0, 'z': 1, 'i': 1, 'k': 3, 'u': 8, 't': 1.5},
+    {'a': 2, 'b': 4, 'c': 6, 'd': 8, 'n': 3, 'v': 1.0, 'w': -0.25, 'x': 0.75, 'y': -1.0, 'z': 2, 'i': 0, 'k': 1, 'u': 4, 't': -0.5},
 ]
 
 
@@ -386,7 +401,7 @@ def _nan_eq(a, b):
     return a == b or repr(a) == repr(b)
 
 
-def compare_behaviour(orig, loaded, stats):
+def compare_behaviour(orig, loaded, stats, fresh=None):
     r = {}
     eq = _outcome(lambda: bool(loaded == orig) and bool(orig == loaded))
     r['eq'] = eq == ('ok', True)
@@ -394,6 +409,16 @@ def compare_behaviour(orig, loaded, stats):
     for attr in ('parameter_names', 'defined_channels', 'measurement_names'):
         a = _outcome(lambda: set(getattr(orig, attr)))
         b = _outcome(lambda: set(getattr(loaded, attr)))
+        ok = ok and a == b
+    # further interface properties, including WHICH accesses raise (AbstractPT: declared vs not declared)
+    for attr in ('integral', 'initial_values', 'final_values'):
+        def get(o):
+            v = getattr(o, attr)
+            return sorted((repr(_chan(c)), repr(fp_value(e))) for c, e in v.items())
+        a = _outcome(lambda: get(orig))
+        b = _outcome(lambda: get(loaded))
+        if a != b:
+            stats['iface_diff_' + attr] = stats.get('iface_diff_' + attr, 0) + 1
         ok = ok and a == b
     r['iface'] = ok
     da = _outcome(lambda: fp_value(orig.duration))
@@ -413,6 +438,17 @@ def compare_behaviour(orig, loaded, stats):
         if o.identifier is not None:
             if seen.setdefault(o.identifier, o) is not o:
                 share = False
+    if fresh is not None:
+        # repeated queries on the same storage: the root and every named node below it are served as that very object
+        key = orig.identifier       # the storage key (a linked placeholder is stored with its target's data)
+        if loaded.identifier != key:
+            seen = {i: o for i, o in seen.items() if o is not loaded}
+            seen[key] = loaded
+        for ident, o in sorted(seen.items()):
+            again = _outcome(lambda: fresh[ident])
+            if again[0] != 'ok' or again[1] is not o:
+                share = False
+                stats['reload_not_same'] = stats.get('reload_not_same', 0) + 1
     r['share'] = share
     return r
 
@@ -455,6 +491,8 @@ def _sres(exc):
         return 'type'
     if isinstance(exc, RuntimeError):
         return 'runtime'
+    if isinstance(exc, KeyError):
+        return 'key'
     return 'other:' + type(exc).__name__
 
 
@@ -469,6 +507,8 @@ def run_impl(case):
                     return _run_store(case, path)
                 if case['kind'] == 'pinned':
                     return _run_pinned(case)
+                if case['kind'] == 'hist':
+                    return _run_hist(case, path)
                 return _run_doc(case, path)
     except vlib.Timeout:
         return {'hang': True}
@@ -499,6 +539,8 @@ def _run_store(case, path):
         except Exception as e:   # noqa
             res.append(_sres(e))
     be = _read_backend(_reopen(case['backend'], path, backend))
+    # storing must not change the stored objects (an argument mutated by the callee)
+    mutated = _strip_fp([introspect(r, oids) for r in roots]) != _strip_fp(model_roots)
     import re
     vt = {f: _fp_vars[f] for f in sorted(set(re.findall(r'"(E[0-9a-f]{10})"', json.dumps(model_roots))))}
     ifaces = []
@@ -521,10 +563,69 @@ def _run_store(case, path):
         if o[0] != 'ok':
             loads.append([ri, {'ok': False, 'why': o[1]}])
             continue
-        b = compare_behaviour(roots[ri], o[1], stats)
+        b = compare_behaviour(roots[ri], o[1], stats, fresh)
         b['ok'] = True
+        if mutated:
+            b['eq'] = False
+            stats['mutated_by_store'] = 1
         loads.append([ri, b])
     return {'roots': model_roots, 'res': res, 'be': be, 'loads': loads, 'stats': stats, 'vt': vt, 'iface': ifaces}
+
+
+def _run_hist(case, path):
+    """a history of store / overwrite / delete / link_to / unlink on ONE PulseStorage; every store and overwrite records
+    the state of the object at that moment"""
+    from qupulse.serialization import PulseStorage
+    objs = G.build(case['nodes'])
+    roots = [objs[i] for i in case['roots']]
+    oids = {}
+    backend = _make_backend(case['backend'], path)
+    storage = PulseStorage(backend)
+    res, mops = [], []
+    for op in case['hops']:
+        kind = op[0]
+        if kind in ('store', 'over'):
+            r = roots[op[1]]
+            key = r.identifier
+            mops.append([kind, key, introspect_view(r, oids)])
+            try:
+                if kind == 'store':
+                    storage[key] = r
+                else:
+                    storage.overwrite(key, r)
+                res.append('ok')
+            except Exception as e:   # noqa
+                res.append(_sres(e))
+        elif kind == 'del':
+            mops.append(['del', op[1], None])
+            try:
+                del storage[op[1]]
+                res.append('ok')
+            except Exception as e:   # noqa
+                res.append(_sres(e))
+        elif kind == 'link':
+            roots[op[1]].link_to(objs[op[2]], serialize_linked=op[3])
+        elif kind == 'unlink':
+            roots[op[1]].unlink()
+        else:
+            raise ValueError(kind)
+    be = _read_backend(_reopen(case['backend'], path, backend))
+    finals, loads, stats = [], [], {}
+    for k, r in enumerate(roots):
+        linked_plain = _tag(r) == 'Abstract' and r._linked_target is not None and not r.serialize_linked
+        finals.append([r.identifier, introspect_view(r, oids), not linked_plain])
+    for k, r in enumerate(roots):
+        if r.identifier not in be:
+            continue
+        fresh = PulseStorage(_reopen(case['backend'], path, backend))
+        o = _outcome(lambda: fresh[r.identifier])
+        if o[0] != 'ok':
+            loads.append([k, {'ok': False, 'why': o[1]}])
+            continue
+        b = compare_behaviour(r, o[1], stats, fresh)
+        b['ok'] = True
+        loads.append([k, b])
+    return {'mops': mops, 'res': res, 'be': be, 'finals': finals, 'loads': loads, 'stats': stats}
 
 
 def _run_doc(case, path):
@@ -673,7 +774,7 @@ def g_backend(be):
     return glist(lambda kv: '(%s, %s)' % (gstr(kv[0]), g_json(kv[1])), sorted(be.items()))
 
 
-SRES = {'ok': 'SOk', 'value': 'SErrValue', 'type': 'SErrType', 'runtime': 'SErrRuntime'}
+SRES = {'ok': 'SOk', 'value': 'SErrValue', 'type': 'SErrType', 'runtime': 'SErrRuntime', 'key': 'SErrKey'}
 
 
 def to_coq(case, obs):
@@ -699,10 +800,25 @@ def to_coq(case, obs):
             g_backend(obs['be']), '[' + '; '.join(loads) + ']',
             glist(lambda kv: '(%s, %s)' % (gstr(kv[0]), gstrs(kv[1])), sorted(obs['vt'].items())),
             glist(g_iface, obs['iface']))
+    if case['kind'] == 'hist':
+        def g_op(m):
+            if m[0] == 'del':
+                return '(HDel 0%%nat %s)' % gstr(m[1])
+            return '(%s 0%%nat %s %s)' % ('HStore' if m[0] == 'store' else 'HOver', gstr(m[1]), g_pt(m[2]))
+        return '(CHist %s %s %s %s %s)' % (
+            glist(g_op, obs['mops']), glist(lambda r: SRES.get(r, 'SErrOther'), obs['res']), g_backend(obs['be']),
+            glist(lambda f: '(%s, %s, %s)' % (gstr(f[0]), g_pt(f[1]), gbool(f[2])), obs['finals']),
+            glist(lambda kb: '(%d%%nat, %s)' % (kb[0], g_lobs(kb[1])), obs['loads']))
     if case['kind'] == 'pinned':
         return '(CPinned %s %s %s %s %s)' % (g_backend(obs['be']), gstr(case['load']), g_pt(case['expect']),
                                             gopt(g_pt, obs.get('loaded')), gbool(obs.get('iface_ok', False)))
     return '(CDoc %s %s %s %s)' % (g_backend(obs['be']), gstr(case['load']), gbool(obs['ok']), g_backend(obs['redoc']))
+
+
+def g_lobs(b):
+    if not b['ok']:
+        return 'mkLobs false false false false false false'
+    return 'mkLobs true %s %s %s %s %s' % (gbool(b['eq']), gbool(b['iface']), gbool(b['dur']), gbool(b['prog']), gbool(b['share']))
 
 
 def case_root_pos(case, ri):
@@ -722,6 +838,8 @@ def nontrivial(case, obs):
         return any(named_below(r) for r in obs['roots'])
     if case.get('kind') == 'pinned':
         return len(case['docs']) > 1
+    if case.get('kind') == 'hist':
+        return len(obs.get('res', [])) >= 2 and 'ok' in obs.get('res', [])
     return obs.get('ok', False) and obs.get('redoc') != obs.get('be')
 
 
@@ -740,6 +858,15 @@ def histogram_keys(case, obs):
                 keys.append('load:not-equal')
         for k, v in obs.get('stats', {}).items():
             keys.extend([k] * v)
+        for f in case.get('flags', []):
+            keys.append('flag:' + f)
+    elif case['kind'] == 'hist':
+        for n in case['nodes']:
+            keys.append('node:' + n['k'])
+        for op, r in zip(obs['mops'], obs['res']):
+            keys.append('hop:%s:%s' % (op[0], r.split(':')[0]))
+        for _, b in obs['loads']:
+            keys.append('hload:' + ('ok' if b['ok'] else 'fail'))
         for f in case.get('flags', []):
             keys.append('flag:' + f)
     elif case['kind'] == 'pinned':
